@@ -199,6 +199,30 @@ class InsertCb:
         self.log.inserted = getattr(self.log, 'inserted', 0) + 1
 
 
+class ConwipCb:
+    """Workload callback (receive callback of the station behind a buffer): whenever the station takes a job out of the
+    buffer - i.e. in the middle of the buffer's release - the next raw job, made by hand, is put into that same buffer
+    with Buffer.give_part() (constant work in progress)."""
+
+    def __init__(self, log, world, dev_id, buf_id):
+        self.log, self.world, self.dev_id, self.buf_id, self.n = log, world, dev_id, buf_id, 0
+
+    def __call__(self, dev, part):
+        if instrument.PROBING:
+            return
+        self.n += 1
+        buf = self.world.devs[self.buf_id]
+        p = Part(name=f'{self.dev_id}_job_{self.n}', value=1, quality=1)
+        p.huid = f'{self.dev_id}:job{self.n}'
+        p.hseq = 0
+        p.hsrc = self.dev_id
+        p.h_initial_value = 1
+        p.initialize(dev.env)
+        if buf.give_part(p):
+            self.log.leaves.append(p)
+            self.log.conwip_jobs = getattr(self.log, 'conwip_jobs', 0) + 1
+
+
 class StopInReleaseWindowCb:
     """Workload callback (finish callback of a resource-holding processor): every k-th finish it schedules, for this
     very instant, a planned stop at a priority just below the machine's release check (so the stop lands between
@@ -447,6 +471,17 @@ class ScriptAction:
                     o = getattr(d, '_output', None)
                     if o is not None and hasattr(o, 'routing_history'):
                         o.h_flag = not getattr(o, 'h_flag', False)
+                        n += 1
+                out = n
+            elif kind == 'new_collected':
+                # the user sets the parts collected so far aside and gives every collecting sink a fresh list
+                # (collected_parts is a documented public attribute)
+                n = 0
+                for d in w.devs.values():
+                    if getattr(d, '_collect_parts', False) and hasattr(d, 'collected_parts'):
+                        w.set_aside = getattr(w, 'set_aside', [])
+                        w.set_aside.append((d, d.collected_parts, list(d.collected_parts)))
+                        d.collected_parts = []
                         n += 1
                 out = n
             elif kind == 'clear_data':
@@ -763,6 +798,8 @@ def build(spec, bus=None, script=True, system=None, known=None):
         elif k == 'handler':
             d = (HLenHandler if it.get('len_dev') else PartHandler)(name=nm, upstream=ups, cycle_time=it['ct'],
                                                                     value=it.get('value', 0))
+            if it.get('conwip'):
+                d.add_receive_part_callback(ConwipCb(log, w, i, it['conwip']))
         elif k == 'processor':
             if it.get('setup'):
                 d = HSetupProc(nm, ups, it['ct'], dict(it['res']) if it.get('res') else None,
